@@ -182,6 +182,18 @@ static int ci_equal_skipzero(const unsigned char *a, size_t al, const char *c) {
     return ci_equal(t, tl, (const unsigned char *) c, strlen(c));
 }
 
+/* a key string as the parsers produce them: often with spare capacity behind its content (a parameter name shortened by in-place
+ * decoding, a builder's buffer), the spare bytes holding stale data; bstr_len, not the buffer size, is the length of a key */
+static bstr *tkey(int ki, int slack) {
+    if (!slack) return bstr_dup_mem(TKEYS[ki], TKLEN[ki]);
+    bstr *k = bstr_alloc(TKLEN[ki] + (size_t) slack);
+    if (k == NULL) return NULL;
+    memset(bstr_ptr(k), "bA\0c"[slack & 3], TKLEN[ki] + (size_t) slack);
+    memcpy(bstr_ptr(k), TKEYS[ki], TKLEN[ki]);
+    bstr_adjust_len(k, TKLEN[ki]);
+    return k;
+}
+
 static void table_sequence(int mode, const unsigned char *ops, int nops, int randomised) {
     /* mode 0 copy (htp_table_add), 1 adopt (addn), 2 reference (addk) */
     htp_table_t *t = htp_table_create(1 + (randomised ? rnd() % 3 : 1));
@@ -194,7 +206,7 @@ static void table_sequence(int mode, const unsigned char *ops, int nops, int ran
         n_eval++;
         if (op == 0 && mn < 250) {
             void *v = (void *) (++next_id);
-            bstr *key = bstr_dup_mem(TKEYS[ki], TKLEN[ki]);
+            bstr *key = tkey(ki, ((i + ki) & 1) ? 1 + (i + mode) % 5 : 0);
             htp_status_t rc;
             if (mode == 0) { rc = htp_table_add(t, key, v); bstr_free(key); }
             else if (mode == 1) rc = htp_table_addn(t, key, v);
@@ -207,7 +219,7 @@ static void table_sequence(int mode, const unsigned char *ops, int nops, int ran
             if (rc2 != HTP_ERROR) report("table_mode_mix", "mixing key ownership modes was accepted (mode %d)", mode);
             bstr_free(k2);
         } else if (op == 1) {
-            bstr *key = bstr_dup_mem(TKEYS[ki], TKLEN[ki]);
+            bstr *key = tkey(ki, (i & 1) ? 0 : 1 + (i + ki) % 4);
             void *g = htp_table_get(t, key);
             void *g2 = htp_table_get_mem(t, TKEYS[ki], TKLEN[ki]);
             void *e = NULL;
@@ -292,8 +304,21 @@ static void hexs(char *dst, size_t cap, const unsigned char *p, size_t n) {
 #define CK(name, got, exp) do { n_eval++; n_bstr++; if ((got) != (exp)) { char _a[64], _b[64]; hexs(_a, sizeof _a, a, al); hexs(_b, sizeof _b, b, bl); \
     report(name, "%s(\"%s\", \"%s\") returned %d, definition gives %d", name, _a, _b, (int) (got), (int) (exp)); } } while (0)
 
+/* every other string has spare capacity behind its content, filled with more of the same letters (what a builder or an in-place
+ * decoder leaves behind): only the first bstr_len bytes are the string */
+static bstr *mkb(const unsigned char *p, size_t n) {
+    static unsigned turn;
+    unsigned slack = (turn++ & 1) ? 1 + (turn >> 1) % 4 : 0;
+    if (!slack) return bstr_dup_mem(p, n);
+    bstr *k = bstr_alloc(n + slack);
+    if (k == NULL) return NULL;
+    for (size_t i = 0; i < n + slack; i++) bstr_ptr(k)[i] = n ? p[i % n] : (unsigned char) "aA\0-"[i & 3];
+    bstr_adjust_len(k, n);
+    return k;
+}
+
 static void bstr_pair(const unsigned char *a, size_t al, const unsigned char *b, size_t bl) {
-    bstr *ba = bstr_dup_mem(a, al), *bb = bstr_dup_mem(b, bl);
+    bstr *ba = mkb(a, al), *bb = mkb(b, bl);
     int b_is_c = memchr(b, 0, bl) == NULL;
     char cb[16]; memcpy(cb, b, bl); cb[bl] = 0;
     CK("bstr_cmp", sgn(bstr_cmp(ba, bb)), m_cmp(a, al, b, bl, 0));
@@ -347,7 +372,7 @@ static void bstr_pair(const unsigned char *a, size_t al, const unsigned char *b,
 }
 
 static void bstr_single(const unsigned char *a, size_t al) {
-    bstr *ba = bstr_dup_mem(a, al);
+    bstr *ba = mkb(a, al);
     for (size_t c = 0; c < NSA; c++) {
         int e1 = -1, e2 = -1;
         for (size_t i = 0; i < al; i++) if (a[i] == SA[c]) { if (e1 < 0) e1 = (int) i; e2 = (int) i; }
